@@ -21,6 +21,7 @@ class Run:
         self.common = COMMON if common is None else list(common)
         self.instrument_harness = instrument_harness
         self.timeout = timeout
+        self.weight = 1.0  # share of the tier's deadline relative to the other runs of the property (heavy enumerations get more)
 
     def build(self):
         name = os.path.basename(self.src).replace(".c", "")
@@ -66,6 +67,9 @@ def run_property(pid, spec, tier, seed, deadline=None):
     os.makedirs(os.path.join(VERIF, "out", "replay"), exist_ok=True)
     EVD = os.environ.get("VERIF_EVIDENCE_DIR", os.path.join(VERIF, "evidence")); os.makedirs(EVD, exist_ok=True)
     runs = spec["runs"](tier)
+    if tier == "thorough":  # the big enumerations get a larger share of the deadline than the threshold / structure runs
+        for r in runs:
+            if any(a in r.args for a in ("--mode=lift", "--mode=tiny", "--mode=grid", "--mode=gl")): r.weight = max(getattr(r, 'weight', 1.0), 6.0)
     total_deadline = deadline if deadline is not None else (int(os.environ.get("VERIF_DEADLINE_S", "1200")) if tier == "thorough" else int(os.environ.get("VERIF_QUICK_DEADLINE_S", "600")))
     results = []
     scratch = tempfile.mkdtemp(prefix="m4ri-verif-run-")
@@ -81,7 +85,8 @@ def run_property(pid, spec, tier, seed, deadline=None):
                 results.append(dict(run=r.describe(), skipped=True, deadline_hit=1, executed=0, total_cases=0, failures=[], counters={}, samples=[], distinct_nontrivial=0))
                 continue
             # share of the remaining budget: proportional to runs left
-            share = max(5, int(remaining / max(1, (len(runs) - i)) * 1.5)) if len(runs) - i > 1 else int(remaining)
+            wsum = sum(getattr(x, 'weight', 1.0) for x in runs[i:])
+            share = max(5, int(remaining * getattr(r, 'weight', 1.0) / wsum * 1.3)) if len(runs) - i > 1 else int(remaining)
             args = r.args + ["--tier=" + tier, "--seed=%d" % seed, "--deadline=%d" % min(share, int(remaining))]
             ed = os.path.join(scratch, "r%d" % i); os.makedirs(ed)
             res = exec_harness(exe, args, r.env, ed)
